@@ -291,6 +291,8 @@ impl CoreInner {
 			})?;
 
 		log::debug!("Created SST table_id={}, file_size={}", table.id, table.file_size);
+		#[cfg(surrealkv_verif)]
+		crate::verif::yp("flush:sst_written");
 
 		// Step 2: Write to versioned index (B+tree) with vlog-separated values
 		// Note: Replace entries are NOT cleaned up here. The HistoryIterator uses
@@ -312,6 +314,8 @@ impl CoreInner {
 			);
 		}
 
+		#[cfg(surrealkv_verif)]
+		crate::verif::yp("flush:before_manifest");
 		// Step 3: Prepare atomic changeset
 		let mut changeset = ManifestChangeSet::default();
 		changeset.new_tables.push((0, Arc::clone(&table)));
@@ -479,6 +483,8 @@ impl CoreInner {
 			entry.wal_number,
 		)?;
 
+		#[cfg(surrealkv_verif)]
+		crate::verif::yp("flush:installed");
 		// Schedule async WAL cleanup
 		let wal_dir = self.wal.read().get_dir_path().to_path_buf();
 		let min_wal_to_keep = entry.wal_number + 1;
@@ -960,8 +966,12 @@ impl CommitEnv for LsmCommitEnv {
 			Err(Error::ArenaFull) => {
 				// Arena is full - rotate memtable and retry
 				log::debug!("apply: arena full, rotating memtable");
+				#[cfg(surrealkv_verif)]
+				crate::verif::yp("apply:arena_full");
 
 				self.core.rotate_memtable()?;
+				#[cfg(surrealkv_verif)]
+				crate::verif::yp("apply:rotated");
 
 				// Schedule background flush
 				if let Some(ref task_manager) = self.task_manager {
@@ -1345,10 +1355,14 @@ impl Core {
 		// Step 1: Shutdown the commit pipeline to stop accepting new writes
 		self.commit_pipeline.shutdown();
 		log::debug!("Commit pipeline shutdown complete");
+		#[cfg(surrealkv_verif)]
+		crate::verif::yp("close:pipeline_shutdown");
 
 		// Step 2: Signal write stall controller - wake any stalled writers
 		self.write_stall.signal_shutdown();
 		log::debug!("Write stall shutdown signal sent");
+		#[cfg(surrealkv_verif)]
+		crate::verif::yp("close:stall_signalled");
 
 		// Step 3: Wait for and stop all background tasks
 		let task_manager = self.task_manager.lock().unwrap().take();
@@ -1372,6 +1386,8 @@ impl Core {
 			log::debug!("Versioned index closed");
 		}
 
+		#[cfg(surrealkv_verif)]
+		crate::verif::yp("close:before_flush");
 		// Step 3: Conditionally flush ALL memtables based on flush_on_close option
 		// CRITICAL ORDERING: Immutable memtables must be flushed BEFORE active memtable
 		// to preserve SSTable ordering (older data = lower table_ids)
@@ -1391,6 +1407,8 @@ impl Core {
 		// This is safe now because all background tasks that could write to WAL are
 		// stopped NOTE: WAL must be closed BEFORE cleanup, otherwise cleanup may
 		// delete the active WAL file
+		#[cfg(surrealkv_verif)]
+		crate::verif::yp("close:before_wal_close");
 		let wal_log_number = self.inner.wal.read().get_active_log_number();
 		log::info!("Closing WAL: active_log_number={}", wal_log_number);
 
